@@ -1327,6 +1327,13 @@ def _load_qcschema_output(result: dict, lit: LineIterator) -> dict:
     extra_dict["molecule"] = molecule_dict["extra"]
 
     input_dict = _parse_input_keys(result, lit)
+    # The keys of the output schema were parsed above. They must not be passed through a
+    # second time as unparsed input keys, or stale copies overwrite the output on dumping.
+    if "unparsed" in input_dict["extra"]:
+        for key in extra_dict["output"]:
+            input_dict["extra"]["unparsed"].pop(key, None)
+        if not input_dict["extra"]["unparsed"]:
+            del input_dict["extra"]["unparsed"]
     output_dict.update(input_dict)
     extra_dict["input"] = input_dict["extra"]
     output_dict["extra"] = extra_dict
